@@ -276,9 +276,9 @@ def precs_for(tier):
 def fp_witness_checks():
     """concrete binary64 checks on the real, unpatched functions (run in a subprocess: this process has stubs installed)"""
     code = r'''
-import json, sys, warnings
+import json, os, sys, warnings
 warnings.filterwarnings('ignore')
-sys.path.insert(0, '/repo')
+sys.path.insert(0, os.environ.get('VF_REPO', '/repo'))
 import numpy as np
 from jesse import utils
 import jesse.helpers as jh
@@ -303,7 +303,7 @@ print(json.dumps(out))
 def run_real(witnesses):
     import sys
     p = subprocess.run([sys.executable, '-c', fp_witness_checks(), json.dumps(witnesses)], capture_output=True, text=True,
-                       env=dict(os.environ, PYTHONPATH='/repo'), timeout=300)
+                       env=dict(os.environ, PYTHONPATH=os.environ.get('VF_REPO', '/repo')), timeout=300)
     if p.returncode != 0:
         raise RuntimeError('witness subprocess failed: ' + p.stderr[-800:])
     return json.loads(p.stdout.strip().splitlines()[-1])
